@@ -1,3 +1,6 @@
+(* GENERATED on every run by translate/pydeterm2coq.py (hook of harness/C10.py) from
+   /repo/psiaudio/stim.py - do not edit.  Array handling (view / fresh / in-place write / read-only) of: FixedWaveform.reset, FixedWaveform.next, ToneFactory.reset, ToneFactory.next, SilenceFactory.reset, SilenceFactory.next, Transform.reset, GateFactory.next, fast_cache.wrapper.
+   Vocabulary: coq/Determ/TieLib.v; tied to coq/Determ/Model.v by coq/Determ/ProofsTie.v. *)
 From PV Require Import Common.PySlice Determ.Model Determ.TieLib.
 Open Scope Z_scope.
 
